@@ -142,6 +142,12 @@ func (x *executor) runOps(task int, ops []Op) {
 				key = "" // judged by O-lin, not per call index
 			}
 		}
+		if x.w.Prop == "C09" && !panicOK(op.Kind) {
+			// C09 lists its observables (error, Len, AST, example, used types, OpenAPI
+			// text); the internal tree is not among them, so under varied map order
+			// and addresses it is walked (reach) but not compared.
+			key = ""
+		}
 		if op.PanicAt > 0 && panicOK(op.Kind) {
 			_, fired := simrt.Disarm()
 			if fired >= 0 {
